@@ -343,15 +343,32 @@ def trace(run):
 
 
 def today(run):
+    """TODAY() is the LOCAL calendar date at midnight: evaluated under the process's own time zone and under two zones fourteen
+    hours ahead of and twelve hours behind UTC (at every instant one of them has a local date different from the UTC date)"""
+    import time
     p = probe()
-    for _ in range(3):
+    saved = os.environ.get('TZ')
+    zones = [None, 'AAA-14', 'BBB12', None]
+    for z in zones:
+        if z is not None:
+            os.environ['TZ'] = z
+        elif saved is None:
+            os.environ.pop('TZ', None)
+        else:
+            os.environ['TZ'] = saved
+        time.tzset()
         before = datetime.date.today()
         kind, v = p.eval(None, idxs=(12,))[0]
         after = datetime.date.today()
         ok = kind == 'val' and isinstance(v, datetime.datetime) and (v.hour, v.minute, v.second, v.microsecond) == (0, 0, 0, 0) \
             and v.date() in (before, after)
-        run.judge({'in': {'f': 'TODAY'}, 'obs': show(kind, v), 'ideal': str(before), 'kind': 'today'}, ok,
-                  clause=f'TODAY() = {show(kind, v)}, local date {before}', nontrivial=False, part='today')
+        run.judge({'in': {'f': 'TODAY', 'tz': z or 'process default'}, 'obs': show(kind, v), 'ideal': str(before), 'kind': 'today'}, ok,
+                  clause=f'TODAY() = {show(kind, v)}, local date {before} (TZ={z or "process default"})', nontrivial=z is not None, part='today')
+    if saved is None:
+        os.environ.pop('TZ', None)
+    else:
+        os.environ['TZ'] = saved
+    time.tzset()
 
 
 def check(run):
